@@ -81,10 +81,11 @@ func vTextFamily(tag string) []byte {
 	k := zzverif.IntRange(tag+"k", 0, zzverif.Bound("K", 1, 2))
 	tail := zzverif.Bytes(tag+"tail", k)
 	if k == 2 {
-		// two arbitrary bytes that are BOTH non-ASCII could form a valid
-		// multi-byte character inside a string: the engine's string-decoding
-		// model does not cover symbolic multi-byte sequences (outside the bound)
-		zzverif.Assume(tail[0] < 0x80 || tail[1] < 0x80)
+		// the first of two arbitrary bytes is ASCII: a non-ASCII byte followed by
+		// a closing quotation mark would put a symbolic multi-byte sequence
+		// INSIDE a complete string, which the engine's string-decoding model
+		// does not cover (outside the bound; as the LAST byte any value is covered)
+		zzverif.Assume(tail[0] < 0x80)
 	}
 	return append([]byte(doc[:cut]), tail...)
 }
